@@ -34,6 +34,32 @@ Proof. exact read_dir_spec. Qed.
 Theorem C14_readdir_resort : forall h ch, sort_by (@fi_name) (dir_infos h ch) = dir_infos h ch.
 Proof. exact dir_infos_resort. Qed.
 
+(* vfs.go's ReadDir over a file system whose File.ReadDir(-1) lists a directory in ANY order (os.File behind
+   OsFS, BasePathFile, FailFile): the error is passed on, the entries come back sorted by name, the same
+   entries, strictly increasing when the names are distinct ... *)
+Theorem C14_readdir_sorts : forall (E : Type) (raw : str -> list dent * option E) (name : str),
+  let l := fst (raw name) in
+  let r := vfs_read_dir raw name in
+  snd r = snd (raw name)
+  /\ StronglySorted (fun a b => str_ltb (de_name b) (de_name a) = false) (fst r)
+  /\ Permutation (fst r) l
+  /\ (NoDup (map (@de_name) l) -> StronglySorted (fun a b => str_ltb (de_name a) (de_name b) = true) (fst r)).
+Proof. exact vfs_read_dir_spec. Qed.
+
+(* ... so two bases that list the same entries in different orders give the same ReadDir, and the same walk
+   for every callback policy. *)
+Theorem C14_readdir_any_order : forall (E : Type) (raw raw' : str -> list dent * option E) (name : str),
+  Permutation (fst (raw name)) (fst (raw' name)) -> snd (raw name) = snd (raw' name) ->
+  NoDup (map (@de_name) (fst (raw name))) ->
+  vfs_read_dir raw name = vfs_read_dir raw' name.
+Proof. exact vfs_read_dir_any_order. Qed.
+
+Theorem C14_walk_any_order : forall (E X : Type) (P : prims E) (raw raw' : str -> list dent * option E) (pi : policy E X),
+  (forall p, Permutation (fst (raw p)) (fst (raw' p)) /\ snd (raw p) = snd (raw' p) /\ NoDup (map (@de_name) (fst (raw p)))) ->
+  forall fuel root,
+  walk_dir (with_file_listing P raw) pi fuel root = go_walk_dir (with_file_listing P raw') pi fuel root.
+Proof. exact walk_any_order. Qed.
+
 (* for a clean absolute path that resolves through searchable directories to a directory node:
    the listing if the user may read the directory, the permission error otherwise *)
 Theorem C14_readdir_resolved : forall cr s v cs c ch m,
